@@ -92,3 +92,102 @@ def for_fdict(models, ex, s, items, st):
         states = nxt
     outs.extend(Outcome("fall", None, x) for x in states)
     return outs
+
+
+# --------------------------------------------------------------------------- element-wise sequences
+class SymMapped:
+    """Result of a comprehension over a symbolic-length sequence: element-wise
+    filter/map. elementwise(ex, elem, st) -> list of (state, kind, value) with kind in
+    keep / drop / raise; the states extend st's path condition."""
+
+    __pyvc_symbolic_iter__ = True
+
+    def __init__(self, base, fn, kind="list"):
+        self.base, self.fn, self.kind = base, fn, kind
+
+    def __repr__(self):
+        return f"SymMapped(over {self.base!r})"
+
+    def elementwise(self, ex, elem, st):
+        if isinstance(self.base, SymMapped):
+            out = []
+            for s1, k1, v1 in self.base.elementwise(ex, elem, st):
+                if k1 != "keep":
+                    out.append((s1, k1, v1))
+                else:
+                    out.extend(self.fn(ex, v1, s1))
+            return out
+        return self.fn(ex, elem, st)
+
+    def root(self):
+        b = self.base
+        while isinstance(b, SymMapped):
+            b = b.base
+        return b
+
+    def __pyvc_isinstance__(self, t):
+        return t in (list, object)
+
+
+INTERSECTS = None
+
+
+def _intersects():
+    global INTERSECTS
+    if INTERSECTS is None:
+        s = z3.SeqSort(z3.StringSort())
+        INTERSECTS = z3.Function("set_intersects", s, s, z3.BoolSort())
+    return INTERSECTS
+
+
+class SymStrSet:
+    """A set of strings given by the elements of a symbolic sequence (A-set:
+    membership is sequence membership; `a & b` is non-empty iff set_intersects(a, b))."""
+
+    __pyvc_symbolic_iter__ = True
+
+    def __init__(self, seq):
+        self.seq = seq  # SSeq of str
+
+    def __repr__(self):
+        return f"SymStrSet({self.seq.t})"
+
+    def __pyvc_contains__(self, x):
+        return z3.Contains(self.seq.t, z3.Unit(V.z3str(x)))
+
+    def __pyvc_truthy__(self):
+        return z3.Length(self.seq.t) > 0
+
+    def __pyvc_len__(self):
+        raise Unsupported("len of symbolic set")
+
+    def __pyvc_binop__(self, ex, op, other, st, node):
+        if op == "&" and isinstance(other, SymStrSet):
+            # A-set: a non-empty intersection needs two non-empty operands
+            st.assume(z3.Implies(_intersects()(self.seq.t, other.seq.t), z3.And(z3.Length(self.seq.t) > 0, z3.Length(other.seq.t) > 0)))
+            return [Val(SymInter(self, other), st)]
+        raise Unsupported(f"set {op}")
+
+    def __pyvc_elem__(self, k):
+        return SStr(self.seq.t[k])
+
+    def __pyvc_eq__(self, other):
+        if isinstance(other, SymStrSet):
+            return self.seq.t == other.seq.t
+        return False
+
+
+class SymInter:
+    __pyvc_symbolic_iter__ = True
+
+    def __init__(self, a, b):
+        self.a, self.b = a, b
+        self.n = None
+
+    def __pyvc_truthy__(self):
+        return _intersects()(self.a.seq.t, self.b.seq.t)
+
+    def __pyvc_elem__(self, k):
+        from .symexec import fresh_name
+
+        return V.sstr(fresh_name("inter_elem"))
